@@ -187,6 +187,11 @@ func runTok(c *core.Ctx) {
 	}
 }
 
+func isEmptyStruct(t types.Type) bool {
+	st, ok := t.Underlying().(*types.Struct)
+	return ok && st.NumFields() == 0
+}
+
 func runSlotBeforeBcast(c *core.Ctx) {
 	P := c.P
 	// the inbound loop: a mergeHandlerSession method receiving from <-chan ClientMsg
@@ -480,10 +485,13 @@ func runMergeGuards(c *core.Ctx) {
 	// (b) seen-set consulted and updated with the event id
 	{
 		seenKey := "recv.seen[" + sub + "][" + msg + ".Event.ID]"
-		consulted := an.AllHave(fwd, func(g an.Cond) bool { return g.Path(g.V) == seenKey && !g.True })
+		consulted := an.AllHave(fwd, func(g an.Cond) bool {
+			p := g.Path(g.V)
+			return (p == seenKey || p == "ok("+seenKey+")") && !g.True // map[id]bool value, or presence in a map[id]struct{}
+		})
 		var upd []*ssa.BasicBlock
 		an.Region(fn, nil, func(o an.Occ) {
-			if mu, ok := o.In.(*ssa.MapUpdate); ok && o.Path(mu.Map) == "recv.seen["+sub+"]" && o.Path(mu.Key) == msg+".Event.ID" && isConstBool(mu.Value, true) {
+			if mu, ok := o.In.(*ssa.MapUpdate); ok && o.Path(mu.Map) == "recv.seen["+sub+"]" && o.Path(mu.Key) == msg+".Event.ID" && (isConstBool(mu.Value, true) || isEmptyStruct(mu.Value.Type())) {
 				upd = append(upd, mu.Block())
 			}
 		})
